@@ -399,6 +399,11 @@ func TSOf(ts ion.Timestamp) (model.TS, string) {
 			}
 		}
 	}
+	// the instant behind a timestamp is that of its fields with everything below the precision at
+	// its minimum (2022T is 2022-01-01T00:00:00): GetDateTime() and Equal expose anything else
+	if n := t.Normalize(); soft == "" && (n.M != t.M || n.D != t.D || n.H != t.H || n.Mi != t.Mi || n.S != t.S || (t.Prec < model.PSecond && t.Nanos != 0)) {
+		soft = fmt.Sprintf("timestamp of precision %v has the date-time %s, which is not the start of that period", ts.GetPrecision(), dt.Format(time.RFC3339Nano))
+	}
 	return t.Normalize(), soft
 }
 
